@@ -14,7 +14,7 @@ from . import core
 from .props import prop, job, mc_all, Q, T
 
 CORE_FAMS = ["theta", "kll", "req", "fi", "hll", "cpc"]
-REST_FAMS = ["thetaset", "tuple", "tupleset", "quant", "varopt", "varoptunion", "ebpps", "hllunion", "cpcunion", "bloom", "countmin",
+REST_FAMS = ["thetaset", "tuple", "tupleset", "quant", "varopt", "varoptunion", "ebpps", "hllunion", "cpcunion", "bloom", "bloomview", "countmin",
              "tdigest", "density"]
 ALL_FAMS = CORE_FAMS + REST_FAMS
 
@@ -145,7 +145,7 @@ LIFE_MC = [dict(module="MC_Lifecycle", cfg="MC_Lifecycle.cfg", timeout=600)]
       ["the digest is a 64-bit content hash of the family's serialized image(s) plus scalar getters (a collision could hide a difference)",
        "library randomness is made a function of the call (random_utils::override_seed and the random_bit hook before every call), so equal histories "
        "must give equal states; observations (serialization of every live slot after every call) are part of every history",
-       "quick tier replays ALL depth-4 behaviours for all 19 types and every 16th (theta/kll/req/fi/hll/cpc) / 64th (other 13 types) depth-5 behaviour, the "
+       "quick tier replays ALL depth-4 behaviours for all 20 types and every 16th (theta/kll/req/fi/hll/cpc) / 64th (other 14 types) depth-5 behaviour, the "
        "residue chosen by --seed; behaviours containing an echo Mutate are always replayed; thorough replays ALL depth-5 behaviours for the six core "
        "types and every 4th for the others, every 64th / 256th depth-6 behaviour, and every 16th depth-5 behaviour in an AddressSanitizer build",
        "memory obtained outside the user's allocator (global operator new) is counted per call in the trace (field f) but not judged: the C++ standard "
